@@ -87,7 +87,17 @@ func (p *poller) addConn(c *Conn) error {
 		p.g.onUDPListen(c)
 	}
 	p.g.connsUnix[fd] = c
-	err := p.addRead(fd)
+	// Data may have been written and cached in the OnOpen callback before the
+	// fd was added to the poller, then the writing event must be set here.
+	var err error
+	c.mux.Lock()
+	if len(c.writeList) > 0 && !c.closed {
+		c.isWAdded = true
+		err = p.addReadWrite(fd)
+	} else {
+		err = p.addRead(fd)
+	}
+	c.mux.Unlock()
 	if err != nil {
 		p.g.connsUnix[fd] = nil
 		_ = c.closeWithError(err)
